@@ -50,6 +50,11 @@ NOTES = {
     'C03-f': 'needs the sources=[...] form of with_store (several hot sources, each with its own pipeline, sharing one store): added as a C03 scenario with the protocol monitor on every boundary of every pipeline',
     'C09-f': 'NOT caught, deliberately: emit-before-persist in scan only shows under re-entrant delivery (a subscriber pushing the next item of the same key from inside its own on_next). That breaks the Rx contract that notifications are serialised; no property speaks about it, and the unchanged tree has other operators that are not re-entrant either',
     'C08-f': 'NOT caught, deliberately: needs a mux error raised inside the last tee_map branch that travels THROUGH the tee_map to a handler placed after it. C13 specifies handlers placed directly after the failing operator, C08 says nothing about errors (the unchanged tee_map forwards an upstream error once per branch)',
+    'C08-g': 'needs a fatal on_error raised inside a branch that is not the last one (a failing assert_): C08 now puts an assert_ that fails on one value into a branch in one case of four and demands that the tee ends with on_error in the source event, and with the error, with which that branch ends when run alone',
+    'C05-g': 'needs an unhandled mux error that travels through roll (no open window at that moment) to the demultiplexer: C13 with handler "none" now also puts stateful and window operators behind the failing operator',
+    'C07-g': 'NOT caught, deliberately: closing_mapper is evaluated for items that open a window by timeout too, which only shows when closing_mapper raises on, or counts, such an item. With a pure total closing_mapper (all the property quantifies over) the windows are identical; when the mapper is evaluated is not specified',
+    'C03-g': 'NOT caught, deliberately: needs a scan *terminator* that raises at key completion. No property specifies a failing terminator (C13 lists the user functions of map, starmap, filter and scan "on an item"; C03 quantifies over programs, inputs and schedules). Tried: on the unchanged tree a raising terminator is caught by the try block of the nearest upstream map/filter/scan and turned into a mux error for a key that has just been completed, i.e. the same breach - so an oracle for it could not be quiet on the unchanged tree',
+    'C02-g': 'NOT caught, deliberately: needs an accumulator that returns a float for an int seed, so that the typed state array rejects the value - the stated precondition (accumulators return values of the seed\'s type) excludes it',
     'C08-c': 'NOT caught, deliberately: it only shows when the *same* tee_map observable is subscribed a second time. Re-subscription is not in the property (and is not something rxsci supports in general: the publish() subject of tee_map is created once per pipeline and dies with the first completion - a resubscription oracle raised false alarms on the unchanged tree and was removed)',
     'C13-c': 'NOT caught, deliberately: it needs the same error router to be reused for a second stream lifetime after a first one ended in on_error; the property speaks about one stream ("completes with the stream"), so a single-use router would satisfy it - an oracle for reuse would be stronger than the text',
 }
